@@ -289,6 +289,70 @@ def webDownload (keepFile : Bool) (timeout : Option Nat) (enc : Option Str) (pie
     Except PyExc Bytes :=
   sessionDownload I (webDownloadArgs keepFile timeout) enc pieces
 
+/-- The parts of a response (and its request) that a decoding heuristic could
+look at.  `_setup_decompressor` reads `Content-Encoding` and nothing else. -/
+structure ResponseInfo where
+  contentEncoding : Option Str
+  contentType : Option Str
+  contentDisposition : Option Str
+  url : Str
+
+/-- `_setup_decompressor(response)` with the whole header block in view -/
+def setupFromResponse (prev : Dec I) (r : ResponseInfo) : Dec I :=
+  setupDecompressor I prev r.contentEncoding
+
+/-! ### histories over several decoder objects
+
+Decoder objects are values: an operation on one object takes that object's
+state and returns its new state; there is no state shared between objects
+(no class-level or module-level buffer). -/
+
+/-- one call on a decoder object -/
+inductive HOp
+  | feed (data : Bytes)
+  | flush
+  deriving Repr
+
+/-- `Stream._decompress_data` / `_flush_decompressor` on the Stream's decoder -/
+def Dec.step (d : Dec I) : HOp → Dec I × Except PyExc Bytes
+  | .feed data => decompressData I d data
+  | .flush => flushDecompressor I d
+
+/-- `decompress` / `flush` on a wrapper object used directly (zlib.error not converted) -/
+def Dec.stepRaw (d : Dec I) : HOp → Dec I × Except PyExc Bytes
+  | .feed data =>
+    match d with
+    | .none => (.none, .ok data)
+    | .gzip g => let r := gzipDecompress I g data; (.gzip r.1, r.2)
+    | .deflate s => let r := deflDecompress I s data; (.deflate r.1, r.2)
+  | .flush =>
+    match d with
+    | .none => (.none, .ok [])
+    | .gzip g => let r := gzipFlush I g; (.gzip r.1, r.2)
+    | .deflate s => let r := deflFlush I s; (.deflate r.1, r.2)
+
+/-- one decoder object on its own: the results of its calls, in order
+(an exception does not end the object's life: callers may abandon it or go on) -/
+def runAlone (step : Dec I → HOp → Dec I × Except PyExc Bytes) (d : Dec I) :
+    List HOp → Dec I × List (Except PyExc Bytes)
+  | [] => (d, [])
+  | op :: ops =>
+    let r := step d op
+    let rest := runAlone step r.1 ops
+    (rest.1, r.2 :: rest.2)
+
+/-- Several decoder objects alive at once: `sched` says which object gets which
+call, in global order; objects may be abandoned at any point (no more calls). -/
+def runSchedule (step : Dec I → HOp → Dec I × Except PyExc Bytes) (pool : List (Dec I)) :
+    List (Nat × HOp) → List (Nat × Except PyExc Bytes)
+  | [] => []
+  | (i, op) :: rest =>
+    match pool[i]? with
+    | none => runSchedule step pool rest
+    | some d =>
+      let r := step d op
+      (i, r.2) :: runSchedule step (pool.set i r.1) rest
+
 /-! ### the wrappers used on their own (`decompress`* then `flush`, zlib.error not converted) -/
 
 def gzipRunFrom (g : GzipSt I) : List Bytes → Except PyExc Bytes
